@@ -194,7 +194,9 @@ pub(crate) async fn git_cmd_diff_changes(
     begin: Option<&str>,
     end: Option<&str>,
 ) -> Result<Vec<Change>, MonorailError> {
-    let mut args = vec!["diff", "--name-only", "--find-renames", "-z"];
+    // --no-renames: a moved file is a deletion of the old path and a creation of the new
+    // one; with rename detection --name-only would list only the new path.
+    let mut args = vec!["diff", "--name-only", "--no-renames", "-z"];
     if let Some(begin) = begin {
         args.push(begin);
     }
